@@ -7,14 +7,16 @@
 cd "$(dirname "$0")/.." || exit 2
 rc=0
 for id in "$@"; do
+ for seed in ${SEEDS:-1 77}; do
   ref=""
   for jobs in 16 16 5 1; do
     runs=${RUNS:-6000}
-    line=$(VERIF_JOBS=$jobs ./check "$id" --runs "$runs" --no-corpus 2>&1 | grep -E "^\[[a-z]+\] [0-9]+ runs" | sed -E 's/, [0-9.]+s wall, [0-9]+ runs\/h//')
+    line=$(VERIF_SEED=$seed VERIF_JOBS=$jobs ./check "$id" --runs "$runs" --no-corpus 2>&1 | grep -E "^\[[a-z]+\] [0-9]+ runs" | sed -E 's/, [0-9.]+s wall, [0-9]+ runs\/h//')
     if [ -z "$ref" ]; then ref="$line"; fi
     if [ "$line" != "$ref" ] || [ -z "$line" ]; then echo "NONDETERMINISTIC $id jobs=$jobs: '$line' vs '$ref'"; rc=1; fi
   done
-  echo "deterministic $id: $ref"
+  echo "deterministic $id seed=$seed: $ref"
+ done
 done
 git checkout -- evidence 2>/dev/null
 exit $rc
